@@ -414,6 +414,29 @@ def rule_views(eng):
                 r[0] = max(r[0], need)
                 r[1] = sdecl
                 r[2].append((n, key, what))
+    # raw copies of a constant number of bytes out of a (pointer, size) parameter pair that no local guard covers:
+    # the same kind of precondition as a header view (Packet(type, data, size) reading its 16 header bytes into a local)
+    for f in eng.fns:
+        if not f.cfg_raw:
+            continue
+        for c in f.calls():
+            ca = facts.copy_args(c)
+            if ca is None or const_value(ca[2]) is None:
+                continue
+            pr = prov(f, ca[1])
+            if pr.kind != "param" or pr.off is None:
+                continue
+            sdecl, _ = companion(f, pr.base)
+            if sdecl is None:
+                continue
+            need = pr.off + const_value(ca[2])
+            lb, _ = eng.facts_lb(f, c, sdecl, pr.base)
+            if lb < need:
+                key = "%s:copy of %d bytes at offset %d@%s" % (f.name.replace(NS, ""), const_value(ca[2]), pr.off, (c.get("loc") or "").split(":", 1)[-1])
+                r = eng.req.setdefault(f.key, {}).setdefault(pr.base, [0, sdecl, []])
+                r[0] = max(r[0], need)
+                r[1] = sdecl
+                r[2].append((c, key, "copy of %d bytes at offset %d" % (const_value(ca[2]), pr.off)))
     # pass 2: discharge requirements at call sites (propagating upwards)
     changed = True
     rounds = 0
@@ -684,6 +707,25 @@ def cursor_pair(eng, f, pvar, svar):
         pr.base.split(":")[-1], pr.off, cs.split(":")[-1], pr.off, canon(strip_all_casts(mp["r"])), callee_name(live[0][3]).split("::")[-1])
 
 
+def header_of_param(fb, f, obj, pdecl):
+    """obj (the object a MessageHeader getter is called on) is the header at offset 0 of pointer parameter pdecl:
+    a view cast of the pointer, or a local MessageHeader filled by one raw copy of sizeof(MessageHeader) bytes from it."""
+    if obj is None:
+        return False
+    pr = prov(f, obj)
+    if pr.kind == "param" and pr.base == pdecl and pr.off == 0:
+        return True
+    o = strip_all_casts(obj)
+    if o.get("k") == "ref" and o.get("dk") == "local":
+        cps = [facts.copy_args(x) for x in f.calls() if facts.copy_args(x)]
+        cps = [ca for ca in cps if strip_all_casts(ca[0]).get("k") == "un" and strip_all_casts(strip_all_casts(ca[0])["e"]).get("decl") == o["decl"]]
+        if len(cps) == 1:
+            ps = prov(f, cps[0][1])
+            return ps.kind == "param" and ps.base == pdecl and ps.off == 0 and const_value(cps[0][2]) == fb.record(NS + "MessageHeader")["size"] and \
+                not any(d == o["decl"] and kind != "addr" for d, kind, _ in facts.writes_of(f))
+    return False
+
+
 def rule_pairs(eng, ctx):
     fb, res = eng.fb, eng.res
     # the message-level validator may be assumed inside Packet(msgType,data,size) when every construction from raw bytes is justified (C03-R4)
@@ -744,7 +786,8 @@ def rule_pairs(eng, ctx):
                                                 g2 = a
                             if g2 is not None and lbn >= pr.off:
                                 ok, why = True, "length `%s` guarded by <= %s - %d" % (scan[:40], cs.split(":")[-1], pr.off)
-                            elif f.name == NS + "Packet::Packet" and c03r4 and callee_name(sa) == NS + "MessageHeader::getPayloadLength" and pr.off == fb.record(NS + "MessageHeader")["size"]:
+                            elif f.name == NS + "Packet::Packet" and c03r4 and callee_name(sa) == NS + "MessageHeader::getPayloadLength" and \
+                                    pr.off == fb.record(NS + "MessageHeader")["size"] and header_of_param(fb, f, sa.get("obj"), pr.base):
                                 ok, why = True, "declared payload length is bounded by isValidPacket, which every construction of a Packet from raw bytes discharges (C03-R4)"
                             elif sa.get("k") == "call" and callee_name(sa) == "std::min" and any(canon(strip_all_casts(x)) == cs for x in sa.get("args", [])) and pr.off == 0:
                                 ok, why = True, "length is min(size, ...)"
